@@ -124,10 +124,23 @@ theorem weakIn_wpos (t tri : Tri K) (s : Tri2 K) (hrep : TriRep t s tri) (q : Pt
   rw [Retro.Props.C03.baryPos_comb2 t wa wb wc _ _ _ hsum, ← hrep.1.2.1, ← hrep.2.1.2.1, ← hrep.2.2.2.1]
   exact comb_pos wa wb wc _ _ _ h0 h1 h2 hsum ha hb hc
 
-/-- `q` lies on none of the three edge lines of any piece of `t` (in `t`'s barycentric plane). -/
+/-- `q` lies on none of the three edge lines of any piece of `t`, in `t`'s barycentric plane; the pieces'
+barycentric corners are the (computable) list `clipTri2 t`, which represents `clipTri t` vertex for vertex
+(`Retro.Props.C03.rep_clipTri`). -/
 def OffEdges (t : Tri K) (q : Pt K) : Prop :=
-  ∀ tri ∈ clipTri t, ∀ s : Tri2 K, TriRep t s tri →
+  ∀ s ∈ Retro.Props.C03.clipTri2 t,
     orient2 s.a s.b q ≠ 0 ∧ orient2 s.b s.c q ≠ 0 ∧ orient2 s.c s.a q ≠ 0
+
+instance decOffEdges (t : Tri K) (q : Pt K) : Decidable (OffEdges t q) := by unfold OffEdges; infer_instance
+
+/-- The same condition stated on ALL barycentric representations of the emitted pieces implies `OffEdges`. -/
+theorem offEdges_of_rep (t : Tri K) (hwf : TriWF t)
+    (hlen : t.a.attr.length = t.b.attr.length ∧ t.b.attr.length = t.c.attr.length) (q : Pt K)
+    (h : ∀ tri ∈ clipTri t, ∀ s : Tri2 K, TriRep t s tri →
+      orient2 s.a s.b q ≠ 0 ∧ orient2 s.b s.c q ≠ 0 ∧ orient2 s.c s.a q ≠ 0) : OffEdges t q := by
+  intro s hs
+  obtain ⟨tri, htri, hrep⟩ := Retro.Props.C03.forall₂_mem_left (Retro.Props.C03.rep_clipTri t hwf hlen) s hs
+  exact h tri htri s hrep
 
 /-- Covering piece of a visible point, any viewport scale `dx*dy ≠ 0` (detailed form). -/
 theorem visible_covered (dx dy cx cy : K) (hdd : dx * dy ≠ 0) (Q : Vec4 K → Prop) (hQ : ClipInv Q)
@@ -138,8 +151,10 @@ theorem visible_covered (dx dy cx cy : K) (hdd : dx * dy ≠ 0) (Q : Vec4 K → 
     (hxy : centre x y = proj dx dy cx cy (baryPos t q)) :
     ∃ tri ∈ clipTri t, ∃ s : Tri2 K, TriRep t s tri ∧ StrictIn q s ∧ 0 < (baryPos t q).w ∧
       InsideTri (vpMat dx dy cx cy) tri x y := by
-  obtain ⟨tri, htri, s, hrep, h1, h2, h3⟩ := Retro.Props.C03.clip_covers t hwf hlen hnd q hq
-  obtain ⟨n1, n2, n3⟩ := hoff tri htri s hrep
+  obtain ⟨q0, h0, h0D⟩ := hnd
+  obtain ⟨s, hs, h1, h2, h3⟩ := Retro.Props.C03.clipTri2_covers t hwf q0 h0 h0D q hq
+  obtain ⟨tri, htri, hrep⟩ := Retro.Props.C03.forall₂_mem_left (Retro.Props.C03.rep_clipTri t hwf hlen) s hs
+  obtain ⟨n1, n2, n3⟩ := hoff s hs
   have hst : StrictIn q s := ⟨lt_of_le_of_ne h1 (Ne.symm n1), lt_of_le_of_ne h2 (Ne.symm n2),
     lt_of_le_of_ne h3 (Ne.symm n3)⟩
   have hO : 0 < orient2 s.a s.b s.c := by
